@@ -517,7 +517,7 @@ func runCheck(prop, tier string, verbose, keep bool, only string) int {
 						fmt.Printf("  harness=%s obligation=%s %s\n  inputs: %s\n", res.Name, label, v.VC.Info, modelString(v.Model, v.VC.Choices))
 						s.Notes = append(s.Notes, "violated: "+modelString(v.Model, v.VC.Choices))
 					case "not-reproduced":
-						fmt.Printf("INCONCLUSIVE property=%s harness=%s obligation=%s: solver counterexample did not reproduce natively (%s)\n", prop, res.Name, label, rep.detail)
+						fmt.Printf("INCONCLUSIVE property=%s harness=%s obligation=%s: solver counterexample did not reproduce natively (%s) [%s]\n", prop, res.Name, label, rep.detail, v.VC.Info)
 						s.Notes = append(s.Notes, "counterexample did not reproduce natively: "+modelString(v.Model, v.VC.Choices))
 						inconclusive++
 						_ = os.RemoveAll(dir)
